@@ -104,6 +104,23 @@ theorem eth_consecutive (hnd : order.Nodup) (isAll : Bool) (s : Nat) :
   simp only [if_true]
   exact sortEth_eth order hnd cur _ s
 
+/-- **eth_up_to_first_gap** — the chain of a sender is not cut short: the nonce following the last
+returned one is carried by none of that sender's collected transactions (so the sender's returned
+transactions are exactly the nonces `cur s, cur s + 1, …` up to the first gap).  `s ∈ order`: the
+Go map's keys are all eth senders of the collected list. -/
+theorem eth_up_to_first_gap (hnd : order.Nodup) (isAll : Bool) (s : Nat) (hs : s ∈ order) :
+    ∀ t ∈ collect (keeps cfg p excl isAll now) count p.q 0, t.esort = true → t.snd = s →
+      t.nonce ≠ cur s +
+        ((getTxList cfg p count excl isAll now true order cur).filter (fun t => t.esort && t.snd == s)).length := by
+  intro t ht he hsnd
+  unfold getTxList
+  simp only [if_true]
+  rw [sortEth_sender_eq order hnd cur _ s hs ⟨t, ht, he⟩]
+  unfold chainOf
+  apply chain_gap
+  rw [List.mem_filter]
+  exact ⟨ht, by simp [he, hsnd]⟩
+
 /-! ### non-vacuity -/
 
 def exCfg : Cfg := ⟨8, 8, 8, 3, true⟩
@@ -117,6 +134,6 @@ def exPool : Pool :=
 /-- a concrete query: count 5, t6 excluded, sender 7's current nonce is 3 → `t1` then `t3, t2`
 (nonces 3, 4; 6 is behind a gap; t5 expired; t6 excluded). -/
 example : (getTxList exCfg exPool 5 [6] false 100 true [7] (fun _ => 3)).map (·.id) = [1, 3, 2] ∧
-    [7].Nodup ∧ (ids exPool).Nodup := by decide
+    [7].Nodup ∧ 7 ∈ [7] ∧ (ids exPool).Nodup := by decide
 
 end C23
